@@ -355,6 +355,24 @@ class BuiltinMixin:
         cnt = self.count_fn(s.elem)
         return cnt(*s.comps()[1:], *coerce(v, s.elem).comps(), s.len)
 
+    def count_effect(self, p, old: VSeq, new: VSeq, plus=(), minus=(), plus_seq=None):
+        """Assume the effect of a list operation on element counts (lemma by induction on the length)."""
+        if not isinstance(old.elem, TRef):
+            return
+        x = old.elem.fresh("cx")
+        rhs = self.seq_count(old, x)
+        for y in plus:
+            rhs = rhs + z3.If(val_eq(x, y), 1, 0)
+        for y in minus:
+            rhs = rhs - z3.If(val_eq(x, y), 1, 0)
+        if plus_seq is not None:
+            rhs = rhs + self.seq_count(plus_seq, x)
+        lhs = self.seq_count(new, x)
+        try:
+            p.assume(z3.ForAll(x.comps(), lhs == rhs, patterns=[lhs]))
+        except z3.Z3Exception:      # lambda arrays cannot occur in patterns
+            p.assume(z3.ForAll(x.comps(), lhs == rhs))
+
     def count_fn(self, elem):
         key = "count<" + repr(elem) + ">"
         if key not in self.ufuncs:
@@ -369,6 +387,18 @@ class BuiltinMixin:
             self.axioms.append(z3.ForAll(arrs + x + [n], z3.Implies(n >= 0, f(*arrs, *x, n + 1) == f(*arrs, *x, n) + z3.If(hit, 1, 0)),
                                          patterns=[f(*arrs, *x, n + 1)]))
             self.axioms.append(z3.ForAll(arrs + x + [n], z3.Implies(n >= 0, f(*arrs, *x, n) >= 0), patterns=[f(*arrs, *x, n)]))
+            # membership link (lemmas about the recursive definition, by induction on n; listed as assumed lemmas)
+            i = z3.Int("cnt_i")
+            at_i = z3.And([z3.Select(a, i) == xx for a, xx in zip(arrs, x)])
+            self.axioms.append(z3.ForAll(arrs + x + [n, i], z3.Implies(z3.And(0 <= i, i < n, at_i), f(*arrs, *x, n) >= 1),
+                                         patterns=[z3.MultiPattern(f(*arrs, *x, n), z3.Select(arrs[0], i))]))
+            wit = z3.Function(key + "!wit", *arr_sorts, *elem.sorts(), z3.IntSort(), z3.IntSort())
+            w = wit(*arrs, *x, n)
+            at_w = z3.And([z3.Select(a, w) == xx for a, xx in zip(arrs, x)])
+            self.axioms.append(z3.ForAll(arrs + x + [n], z3.Implies(f(*arrs, *x, n) >= 1, z3.And(0 <= w, w < n, at_w)),
+                                         patterns=[f(*arrs, *x, n)]))
+            self.assumptions_used.add("count(seq, x): recursive definition + lemmas (membership link, effect of list operations) "
+                                      "that hold by induction on the length; assumed, not re-proved by the SMT solver")
         return self.ufuncs[key]
 
     # ---------------------------------------------------------------- methods of boxes (list/dict/set/Counter)
@@ -449,11 +479,14 @@ class BuiltinMixin:
         if name == "append":
             x = self.adapt(p, args[0], s.elem)
             new = VSeq(s.len + 1, [z3.Store(a, s.len, c) for a, c in zip(s.arrs, x.comps())], s.elem)
+            self.count_effect(p, s, new, plus=[x])
             self.write_field(p, recv, "$v", new)
             return [(p, VNone())]
         if name == "extend":
             o = self.iter_seq(args[0], p) if not isinstance(args[0], VTup) else self.to_seq(args[0], p, like=s.elem)
-            self.write_field(p, recv, "$v", self.seq_concat(s, o))
+            new = self.seq_concat(s, o)
+            self.count_effect(p, s, new, plus_seq=o)
+            self.write_field(p, recv, "$v", new)
             return [(p, VNone())]
         if name == "insert":
             idx = args[0].z
@@ -461,7 +494,9 @@ class BuiltinMixin:
             k = z3.If(idx < 0, z3.If(idx + n < 0, 0, idx + n), z3.If(idx > n, n, idx))
             x = self.adapt(p, args[1], s.elem)
             arrs = [z3.Lambda([i], z3.If(i < k, z3.Select(a, i), z3.If(i == k, c, z3.Select(a, i - 1)))) for a, c in zip(s.arrs, x.comps())]
-            self.write_field(p, recv, "$v", VSeq(n + 1, arrs, s.elem))
+            new = VSeq(n + 1, arrs, s.elem)
+            self.count_effect(p, s, new, plus=[x])
+            self.write_field(p, recv, "$v", new)
             return [(p, VNone())]
         if name == "pop":
             idx = args[0].z if args else z3.IntVal(-1)
@@ -472,7 +507,9 @@ class BuiltinMixin:
                 val = s.at(k)
                 self.assume_typed(q, val)
                 arrs = [z3.Lambda([i], z3.If(i < k, z3.Select(a, i), z3.Select(a, i + 1))) for a in s.arrs]
-                self.write_field(q, recv, "$v", VSeq(n - 1, arrs, s.elem))
+                new = VSeq(n - 1, arrs, s.elem)
+                self.count_effect(q, s, new, minus=[val])
+                self.write_field(q, recv, "$v", new)
                 return [(q, val)]
             return self.raise_if(p, z3.Or(k < 0, k >= n), "IndexError", w, ok)
         if name == "remove":
@@ -484,7 +521,9 @@ class BuiltinMixin:
                 q.assume(z3.And(0 <= k, k < s.len, val_eq(s.at(k), x),
                                 z3.ForAll([j], z3.Implies(z3.And(0 <= j, j < k), z3.Not(val_eq(s.at(j), x))))))
                 arrs = [z3.Lambda([i], z3.If(i < k, z3.Select(a, i), z3.Select(a, i + 1))) for a in s.arrs]
-                self.write_field(q, recv, "$v", VSeq(s.len - 1, arrs, s.elem))
+                new = VSeq(s.len - 1, arrs, s.elem)
+                self.count_effect(q, s, new, minus=[x])
+                self.write_field(q, recv, "$v", new)
                 return [(q, VNone())]
             return self.raise_if(p, z3.Not(self.seq_contains(s, x)), "ValueError", w, ok)
         if name == "clear":
@@ -494,7 +533,9 @@ class BuiltinMixin:
             return [(p, self.new_box(p, "list", [s.elem], s))]
         if name == "reverse":
             arrs = [z3.Lambda([i], z3.Select(a, s.len - 1 - i)) for a in s.arrs]
-            self.write_field(p, recv, "$v", VSeq(s.len, arrs, s.elem))
+            new = VSeq(s.len, arrs, s.elem)
+            self.count_effect(p, s, new)
+            self.write_field(p, recv, "$v", new)
             return [(p, VNone())]
         if name == "index":
             return self.call_vmethod(p, s, "index", args, kwargs, node)
@@ -615,7 +656,9 @@ class BuiltinMixin:
 
                     def ok(q):
                         x = self.adapt(q, v, bv.elem)
-                        self.write_field(q, base, "$v", VSeq(bv.len, [z3.Store(a, j, c) for a, c in zip(bv.arrs, x.comps())], bv.elem))
+                        new = VSeq(bv.len, [z3.Store(a, j, c) for a, c in zip(bv.arrs, x.comps())], bv.elem)
+                        self.count_effect(q, bv, new, plus=[x], minus=[bv.at(j)])
+                        self.write_field(q, base, "$v", new)
                         return [(q, NEXT)]
                     pt, pf = self.fork(p, z3.Or(j < 0, j >= bv.len), f"IndexError {w}")
                     out = [(pt, ("raise", Exc("IndexError", w)))] if pt is not None else []
@@ -645,7 +688,7 @@ class BuiltinMixin:
             if sl.lower is None and sl.upper is None and sl.step is None:
                 s = self.iter_seq(v, p) if not isinstance(v, VTup) else self.to_seq(v, p, like=self.box_value(p, base).elem)
                 self.on_box_mutation(p, base, "__setitem__", node)
-                self.write_field(p, base, "$v", coerce(s, self.classes[base.cls].fields["$v"]))
+                self.write_field(p, base, "$v", coerce(s, self.classes[base.cls].fields["$v"]))   # data[:] = seq
                 return [(p, NEXT)]
         return self.setslice_extra(p, base, sl, v, node)
 
